@@ -96,6 +96,7 @@ type world struct {
 	known  map[string]bool // every uuid string ever seen as a node
 	ctr    int
 	rng    *lib.Rand
+	canon  bool // enumeration: generated uuids are written as (cu <version id>), see Model/RepoRun.v
 }
 
 func safeInURL(s string) bool {
@@ -129,10 +130,18 @@ func (w *world) nameOf(s string) string {
 		}
 	}
 	if best >= 0 {
+		if w.canon {
+			if len(s) == 32 && strings.Trim(s, hexd) == "" && best < 256 {
+				return "(cu " + strconv.Itoa(best) + "%nat)"
+			}
+			return coqStr(s)
+		}
 		return "t" + strconv.Itoa(best)
 	}
 	return coqStr(s)
 }
+
+func isName(n string) bool { return strings.HasPrefix(n, "t") || strings.HasPrefix(n, "(cu ") }
 
 func (w *world) snapshot() *Snap {
 	sn := &Snap{Repos: map[string]repoJ{}, Facts: map[string]string{}}
@@ -230,7 +239,7 @@ func (w *world) snapshot() *Snap {
 			}
 			name := w.nameOf(x)
 			qc := coqStr(q)
-			if strings.HasPrefix(name, "t") {
+			if isName(name) {
 				qc = "(pre 10%nat " + name + ")"
 			}
 			sn.Facts["A|"+q] = fmt.Sprintf("FAddr %s %s", qc, val)
@@ -316,6 +325,11 @@ func delFact(w *world, key string) string {
 	case "A":
 		i := strings.Index(parts[1], ":")
 		if i < 0 {
+			for x := range w.known {
+				if len(x) >= 12 && x[:10] == parts[1] && isName(w.nameOf(x)) {
+					return fmt.Sprintf("FAddr (pre 10%%nat %s) None", w.nameOf(x))
+				}
+			}
 			return fmt.Sprintf("FAddr %s None", coqStr(parts[1]))
 		}
 		return fmt.Sprintf("FAddr (cat %s %s) None", w.nameOf(parts[1][:i]), coqStr(parts[1][i:]))
@@ -384,7 +398,7 @@ func (w *world) coq(x SX) string {
 	case "p":
 		if u, ok := w.uuidOf[x.V]; ok {
 			n := w.nameOf(u)
-			if strings.HasPrefix(n, "t") {
+			if isName(n) {
 				return fmt.Sprintf("(pre %d%%nat %s)", x.N, n)
 			}
 		}
@@ -632,7 +646,8 @@ func (w *world) reqTerm(rq Req, before, after *Snap, resolvedParents []string) s
 // ---------- running one sequence
 
 type seqOut struct {
-	term    string
+	term      string
+	stepTerms []string
 	steps   []Req
 	nReq    int
 	classes map[string]int
@@ -642,9 +657,13 @@ type seqOut struct {
 
 // next yields the request to run given the current snapshot (generator or replay list)
 func runSeq(rng *lib.Rand, next func(w *world, sn *Snap, i int) (Req, bool)) seqOut {
+	return runSeqMode(rng, false, next)
+}
+
+func runSeqMode(rng *lib.Rand, canon bool, next func(w *world, sn *Snap, i int) (Req, bool)) seqOut {
 	dv.Open()
 	defer dv.Close()
-	w := &world{uuidOf: map[int]string{}, known: map[string]bool{}, rng: rng}
+	w := &world{uuidOf: map[int]string{}, known: map[string]bool{}, rng: rng, canon: canon}
 	out := seqOut{classes: map[string]int{}, kinds: map[string]int{}}
 	sn := w.snapshot()
 	var terms []string
@@ -706,6 +725,7 @@ func runSeq(rng *lib.Rand, next func(w *world, sn *Snap, i int) (Req, bool)) seq
 	}
 	sb.WriteString("[" + strings.Join(terms, ";\n   ") + "])")
 	out.term = sb.String()
+	out.stepTerms = terms
 	return out
 }
 
@@ -1379,6 +1399,124 @@ func corpus() [][]Req {
 	}
 }
 
+// ---------- exhaustive small scope (thorough tier)
+//
+// Every sequence of up to enumDepth requests over an alphabet of request shapes, each shape resolved
+// against the state it meets (so the same letter is a different concrete request in different
+// states), after a two-request prelude (new repo, commit root).  Generated UUIDs are written as
+// (cu <version id>): the shapes use full UUIDs only, so the behaviour does not depend on the random
+// hex digits, and the observation of a prefix is the same in every run that passes through it: it is
+// emitted once, as a named step, and shared by all sequences that extend it.
+
+const enumDepth = 3
+
+var enumShapes = []string{"commit-open", "newversion-head", "branch-fresh", "branch-b1", "tag-fresh",
+	"tag-root-uuid", "merge-two", "merge-with-open", "merge-repeated", "newversion-open", "delrepo", "commit-unknown"}
+
+func shapeReq(k int, sn *Snap, ctr *int) Req {
+	locked := filterNodes(sn.Nodes, func(n Node) bool { return n.Locked })
+	open := filterNodes(sn.Nodes, func(n Node) bool { return !n.Locked })
+	first := func(ns []Node) SX {
+		if len(ns) == 0 {
+			return L("nosuchnode")
+		}
+		return T(ns[0].VersionID)
+	}
+	last := func(ns []Node) SX {
+		if len(ns) == 0 {
+			return L("nosuchnode")
+		}
+		return T(ns[len(ns)-1].VersionID)
+	}
+	*ctr++
+	switch enumShapes[k] {
+	case "commit-open":
+		return Req{Kind: "commit", U: first(open)}
+	case "newversion-head":
+		return Req{Kind: "newversion", U: last(locked), Assign: L("")}
+	case "branch-fresh":
+		return Req{Kind: "branch", U: first(locked), Branch: L("e" + strconv.Itoa(*ctr)), Assign: L("")}
+	case "branch-b1":
+		return Req{Kind: "branch", U: last(locked), Branch: L("b1"), Assign: L("")}
+	case "tag-fresh":
+		return Req{Kind: "tag", U: last(locked), Tag: L("g" + strconv.Itoa(*ctr))}
+	case "tag-root-uuid":
+		return Req{Kind: "tag", U: last(locked), Tag: T(1)}
+	case "merge-two":
+		ps := []SX{last(locked), first(locked)}
+		if len(locked) >= 2 {
+			ps = []SX{T(locked[len(locked)-1].VersionID), T(locked[len(locked)-2].VersionID)}
+		}
+		return Req{Kind: "merge", U: ps[0], MType: "conflict-free", Parents: ps}
+	case "merge-with-open":
+		return Req{Kind: "merge", U: last(locked), MType: "conflict-free", Parents: []SX{last(locked), first(open)}}
+	case "merge-repeated":
+		return Req{Kind: "merge", U: last(locked), MType: "conflict-free", Parents: []SX{last(locked), last(locked)}}
+	case "newversion-open":
+		return Req{Kind: "newversion", U: first(open), Assign: L("")}
+	case "delrepo":
+		return Req{Kind: "delrepo", U: T(1)}
+	default:
+		return Req{Kind: "commit", U: L("0123456789abcdef0123456789abcdef")}
+	}
+}
+
+func enumerate(run *lib.Run, total map[string]int) int {
+	prelude := []Req{{Kind: "newrepo"}, {Kind: "commit", U: T(1)}}
+	named := map[string]bool{} // steps already emitted as shared definitions
+	var defs []string
+	count := 0
+	var rec func(path []int)
+	rec = func(path []int) {
+		if len(path) == enumDepth {
+			ctr := 0
+			so := runSeqMode(lib.NewRand(1), true, func(w *world, sn *Snap, i int) (Req, bool) {
+				if i < len(prelude) {
+					return prelude[i], true
+				}
+				if i-len(prelude) < len(path) {
+					return shapeReq(path[i-len(prelude)], sn, &ctr), true
+				}
+				return Req{}, false
+			})
+			if len(so.stepTerms) != len(prelude)+enumDepth {
+				panic("enumeration: a step was skipped")
+			}
+			// name the steps of every proper prefix the first time they are seen
+			var parts []string
+			for j := 0; j < len(so.stepTerms)-1; j++ {
+				name := "e"
+				if j < len(prelude) {
+					name = "e_p" + strconv.Itoa(j)
+				} else {
+					for _, k := range path[:j-len(prelude)+1] {
+						name += "_" + strconv.Itoa(k)
+					}
+				}
+				if !named[name] {
+					named[name] = true
+					defs = append(defs, fmt.Sprintf("Definition %s : step_obs := %s.", name, so.stepTerms[j]))
+				}
+				parts = append(parts, name)
+			}
+			parts = append(parts, so.stepTerms[len(so.stepTerms)-1])
+			key := fmt.Sprintf("enum|%v", path)
+			run.Add("enum", "["+strings.Join(parts, "; ")+"]", jcase{Kind: "enum", Steps: so.steps}, key)
+			for k, v := range so.kinds {
+				total["enum:"+k] += v
+			}
+			count++
+			return
+		}
+		for k := range enumShapes {
+			rec(append(append([]int{}, path...), k))
+		}
+	}
+	rec(nil)
+	run.Header(defs...)
+	return count
+}
+
 func main() {
 	o := lib.ParseOpts()
 	dv.Quiet()
@@ -1423,7 +1561,7 @@ func main() {
 	}
 	budget, maxSeq := 145000, 300
 	if o.Thorough() {
-		budget, maxSeq = 1100000, 3000
+		budget, maxSeq = 700000, 3000
 	}
 	if o.N > 0 {
 		maxSeq = o.N
@@ -1438,6 +1576,12 @@ func main() {
 		reused += g.stats["reused_deleted_uuid"]
 	}
 	run.Dist["reused_deleted_uuid"] = reused
+	if o.Thorough() || os.Getenv("C07_ENUM") != "" {
+		n := enumerate(run, total)
+		run.Extra["exhaustive"] = true
+		run.Extra["exhaustive_scope"] = fmt.Sprintf("all %d sequences of %d requests over %d request shapes (%s) after [newrepo; commit root]; their prefixes cover the shorter sequences",
+			n, enumDepth, len(enumShapes), strings.Join(enumShapes, ", "))
+	}
 	for k, v := range total {
 		run.Dist[k] = v
 	}
